@@ -52,6 +52,11 @@ var (
 	qNameRe   = regexp.MustCompile(`\|q\.[^|]*![0-9]+\|`)
 )
 
+// derefRe matches a heap read at the given reference term
+func derefRe(term string) *regexp.Regexp {
+	return regexp.MustCompile(`\(select \|[^|]+\| ` + regexp.QuoteMeta(term) + `\)`)
+}
+
 // trigger records r as a trigger candidate of the innermost quantifier if its
 // index term is one of that quantifier's bound variables.
 func (env *Env) trigger(r, idx string) {
@@ -440,6 +445,28 @@ func (env *Env) elabCall(n ECall) (string, SType, error) {
 		}
 		f := e.declareFun(q("str_of."+w.tyid(sl.Elem())), []string{"(Array Int " + w.sortOf(sl.Elem()) + ")", "Int", "Int"}, "Str")
 		return fmt.Sprintf("(%s (select %s (s_arr %s)) (s_off %s) (s_len %s))", f, env.heap(w.heapArr(sl.Elem())), t, t, t), tStr, nil
+	case "$apply": // $apply(f, args...): result of calling the function value f (same symbol the encoder uses for dynamic calls)
+		ft, fst, err := env.elab(n.Args[0])
+		if err != nil {
+			return "", tBool, err
+		}
+		sig, ok := fst.T.Underlying().(*types.Signature)
+		if fst.T == nil || !ok || sig.Results().Len() != 1 {
+			return "", tBool, fmt.Errorf("$apply needs a function value with one result")
+		}
+		as := []string{ft}
+		sorts := []string{"Ref"}
+		for i, a := range n.Args[1:] {
+			t, _, err := env.elab(a)
+			if err != nil {
+				return "", tBool, err
+			}
+			as = append(as, t)
+			sorts = append(sorts, w.sortOf(sig.Params().At(i).Type()))
+		}
+		name := q("apply:" + typeStr(fst.T.Underlying()))
+		e.declareFun(name, sorts, w.sortOf(sig.Results().At(0).Type()))
+		return fmt.Sprintf("(%s %s)", name, strings.Join(as, " ")), SType{T: sig.Results().At(0).Type()}, nil
 	case "ref": // view any Ref-sorted value as Ref
 		t, _, err := env.elab(n.Args[0])
 		return t, tRef, err
@@ -624,26 +651,6 @@ func (env *Env) elabOpaque(d *Define, n ECall) (string, SType, error) {
 		}
 		as = append(as, at)
 		sorts = append(sorts, w.stypeSort(pst))
-		if stable && w.stypeSort(pst) == "Ref" {
-			// side condition: reference arguments are function parameters (allocated at entry)
-			t := at
-			for {
-				d2, ok := e.letDef[t]
-				if !ok {
-					break
-				}
-				t = d2
-			}
-			isParam := t == "nil" || strings.HasPrefix(t, "|op.")
-			for _, fp := range e.fn.Params {
-				if t == e.vname(fp) {
-					isParam = true
-				}
-			}
-			if !isParam {
-				return "", tBool, fmt.Errorf("stable predicate %s: reference argument %s is not a parameter of the enclosing function", d.Name, t)
-			}
-		}
 		pn := q("op." + d.Name + "." + p.Name)
 		pnames = append(pnames, pn)
 		binders = append(binders, fmt.Sprintf("(%s %s)", pn, w.stypeSort(pst)))
@@ -665,6 +672,33 @@ func (env *Env) elabOpaque(d *Define, n ECall) (string, SType, error) {
 		return "", tBool, fmt.Errorf("in opaque %s: %v", d.Name, err)
 	}
 	if stable {
+		// side condition: every reference parameter that the body dereferences must be
+		// (after resolving macro lets) a parameter of the enclosing function, i.e. allocated at entry
+		for i, p := range d.Params {
+			if sorts[i] != "Ref" {
+				continue
+			}
+			if !strings.Contains(body, " "+pnames[i]+")") || !derefRe(pnames[i]).MatchString(body) {
+				continue
+			}
+			t := as[i]
+			for {
+				d2, ok := e.letDef[t]
+				if !ok {
+					break
+				}
+				t = d2
+			}
+			isParam := t == "nil" || strings.HasPrefix(t, "|op.")
+			for _, fp := range e.fn.Params {
+				if t == e.vname(fp) {
+					isParam = true
+				}
+			}
+			if !isParam {
+				return "", tBool, fmt.Errorf("stable predicate %s dereferences parameter %s, bound to %s, which is not a parameter of the enclosing function", d.Name, p.Name, t)
+			}
+		}
 		for h := range log {
 			if strings.HasPrefix(h, "|gh.") || strings.HasPrefix(h, "|it.") {
 				return "", tBool, fmt.Errorf("stable predicate %s reads ghost/iterator state %s", d.Name, h)
